@@ -506,6 +506,45 @@ func warm() *mc.Scenario {
 	}}
 }
 
+// optionsFamily: options given to one executor do not reach the next one (all ordered pairs of option
+// sets through pipe.GetOption, and a default MultiLine built after configured ones)
+func optionsFamily(c *seq.Ctx) {
+	type set struct {
+		name    string
+		opts    []pipe.Option
+		slot, q int
+	}
+	sets := []set{
+		{"none", nil, pipe.DefaultSlotSize, pipe.DefaultQSize},
+		{"slot=2", []pipe.Option{pipe.WithSlotSize(2)}, 2, pipe.DefaultQSize},
+		{"q=3", []pipe.Option{pipe.WithQSize(3)}, pipe.DefaultSlotSize, 3},
+		{"slot=5,q=7", []pipe.Option{pipe.WithSlotSize(5), pipe.WithQSize(7)}, 5, 7},
+	}
+	for _, a := range sets {
+		for _, b := range sets {
+			for _, d := range sets {
+				bad := ""
+				for _, x := range []set{a, b, d} {
+					if sl, q := pipe.GetOption(x.opts...); sl != x.slot || q != x.q {
+						bad = fmt.Sprintf("GetOption(%s) after the earlier calls = (%d,%d), want (%d,%d)", x.name, sl, q, x.slot, x.q)
+						break
+					}
+				}
+				c.Case("options/"+fmt.Sprint(bad == ""), bad, "options leak from one executor's construction into another's", func() interface{} { return []string{a.name, b.name, d.name} })
+			}
+		}
+	}
+	_ = mline.NewMultiLine(pipe.WithSlotSize(2), pipe.WithQSize(1))
+	m := mline.NewMultiLine(pipe.WithQSize(1))
+	bad := ""
+	for _, h := range []int{1, 2, 3, 508, 509, 510, 1019} {
+		if got, want := m.IndexOf(h), pipe.NormalizeSlotIndex(h, pipe.DefaultSlotSize); got != want {
+			bad = fmt.Sprintf("a MultiLine built without a slot size (after one built with 2 lanes) routes hash %d to lane %d, want %d of the default %d lanes", h, got, want, pipe.DefaultSlotSize)
+		}
+	}
+	c.Case("options/default-after-configured", bad, "options leak from one executor's construction into another's", nil)
+}
+
 func main() {
 	r := ev.Start("C14")
 	r.Rule("every interleaving (at each mutex/cond/once/waitgroup/channel/select point, every select resolution, up to the stated preemption bound) of callers, context cancellers, Run and Stop on the real line.Line, mline.MultiLine (1..3 slots), async.RunnerQ (AsyncCall via reflection, AsyncDelegate, AsyncProc) and async.ProcChan (size 1,2), the callee recording start/end per lane; oracles: each call starts at most once, no two callees inside one lane, accepted order = start order, own result or own context error, equal hash = same lane = IndexOf in [0,lanes), refusal only after Stop, no callee for a call issued after Stop returned, accepted calls complete (deadlock otherwise), lanes terminate; plus NormalizeSlotIndex/IndexOf over [-300,300], extreme integers and 1..64, 509 lanes")
@@ -513,6 +552,7 @@ func main() {
 	mc.Warm(warm())
 	if r.Shard == "" && r.ReplayPath == "" {
 		seq.RunFamily(r, seq.Family{Name: "lane-index", Run: routing})
+		seq.RunFamily(r, seq.Family{Name: "executor-options", Run: optionsFamily})
 	}
 	scs := append(scenarios(), minIntScenario(), reuseScenario(2), reuseScenario(5), reuseScenario(-4))
 	mc.Main(r, scs)
